@@ -46,8 +46,14 @@ func (t Threshold) IsValid([]byte) error {
 	return nil
 }
 
+// Threshold returns the least number of votes which is not less than
+// quorum*t/100. Threshold has one decimal place(see String() and Equal()), so
+// it is calculated with integers; with float64, 100*(55.0/100) is
+// 55.00000000000001 and its ceil is 56.
 func (t Threshold) Threshold(quorum uint) uint {
-	return uint(math.Ceil(float64(quorum) * (t / MaxThreshold).Float64()))
+	tenths := uint64(math.Round(t.Float64() * 10)) //nolint:mnd //...
+
+	return uint((uint64(quorum)*tenths + 999) / 1000) //nolint:mnd //...
 }
 
 func (t Threshold) VoteResult(quorum uint, set []string) (result VoteResult, key string) {
